@@ -73,7 +73,19 @@ func (c02) Gen(r *sim.Rand, c *sim.Case, tier string) {
 		c.Cfg["foreign"] = 1
 	}
 	ops := g.DocOps(0, r.Range(3, 25))
+	if !fromForeign && r.Chance(0.15) {
+		// a table is built on the side, gets a picture, the document is saved, and only then the table goes into the body
+		f := r.Intn(3)
+		k := r.Intn(len(ops) + 1)
+		side := []sim.Op{{K: "t.create", I: []int{2, 2, 5000, 0, 0}},
+			{K: "cellimg", I: []int{f, 7, 9, 660000 + r.Intn(1000), 0, 0, 0, 0, 2000, r.Intn(2), r.Intn(2)}, F: []float64{30, 20, 0, 0}, S: []sim.Str{sim.Str(g.ImageName(f)), "side-table-picture", "t"}},
+			{K: "save", I: []int{r.Intn(2)}}}
+		rest := append([]sim.Op{}, ops[k:]...)
+		ops = append(append(ops[:k:k], side...), rest...)
+		ops = append(ops, sim.Op{K: "t.attach"}, sim.Op{K: r.Pick("hdr", "ftr"), S: []sim.Str{"even", "after the table went in"}})
+	}
 	ops = sprinkleSaves(r, ops, 0, r.Range(2, 8), 0.4, 0.1)
+	ops = append(ops, sim.Op{K: "save", I: []int{r.Intn(2)}})
 	c.Tasks = [][]sim.Op{append(pre, ops...)}
 	c.Order = orderPolicy(r)
 	c.OrderSeed = r.Uint64()
